@@ -26,3 +26,44 @@ func opName(op token.Token) string {
 	}
 	return "op" + sanitize(op.String())
 }
+
+// Ix is the absolute index of element i of a slice with offset off: off+i, wrapped in an
+// uninterpreted function so that quantifier patterns over array reads contain no
+// arithmetic (solvers normalise sums, which breaks syntactic matching). The defining
+// axiom ix(o,k) = o+k is instantiated for every index term.
+func (c *Ctx) Ix(off, i Term) Term {
+	if v, ok := constVal(off); ok && v.Sign() == 0 {
+		return i
+	}
+	if c.BV {
+		return c.add(off, i) // bit-vector proofs work with plain sums and inferred patterns
+	}
+	c.ixDecl()
+	return mk(c.INT(), "ix", off, i)
+}
+
+// IxS is Ix on raw SMT text (used by the textual axiom builders).
+func (c *Ctx) IxS(off Term, i string) string {
+	if v, ok := constVal(off); ok && v.Sign() == 0 {
+		return i
+	}
+	if c.BV {
+		return "(bvadd " + off.S + " " + i + ")"
+	}
+	c.ixDecl()
+	return "(ix " + off.S + " " + i + ")"
+}
+
+func (c *Ctx) ixDecl() {
+	if c.seen["ixdecl"] {
+		return
+	}
+	c.seen["ixdecl"] = true
+	I := string(c.INT())
+	plus := "(+ o k)"
+	if c.BV {
+		plus = "(bvadd o k)"
+	}
+	c.decls = append(c.decls, decl{"ix", "(declare-fun ix (" + I + " " + I + ") " + I + ")"})
+	c.decls = append(c.decls, decl{"ix.ax", "(assert (forall ((o " + I + ") (k " + I + ")) (! (= (ix o k) " + plus + ") :pattern ((ix o k)))))"})
+}
